@@ -82,6 +82,8 @@ func (fs *MemFs) openFd(inode int, mode fileMode) File {
 func (fs *MemFs) Create(dir, fname string) (f File, ok bool) {
 	fs.m.Lock()
 	defer fs.m.Unlock()
+	verifHook("create.enter", dir, fname, 0)
+	defer verifHook("create.leave", dir, fname, 0)
 	fs.checkDir(dir)
 	p := mkpath(dir, fname)
 	if _, ok := fs.dirents[p]; ok {
@@ -107,6 +109,8 @@ func (fs *MemFs) checkMode(f File, mode fileMode) int {
 func (fs *MemFs) Append(f File, data []byte) {
 	fs.m.Lock()
 	defer fs.m.Unlock()
+	verifHook("append.enter", "", "", f.fd())
+	defer verifHook("append.leave", "", "", f.fd())
 	inode := fs.checkMode(f, appendMode)
 	fs.inodes[inode] = append(fs.inodes[inode], data...)
 }
@@ -114,6 +118,8 @@ func (fs *MemFs) Append(f File, data []byte) {
 func (fs *MemFs) Close(f File) {
 	fs.m.Lock()
 	defer fs.m.Unlock()
+	verifHook("close.enter", "", "", f.fd())
+	defer verifHook("close.leave", "", "", f.fd())
 	if _, ok := fs.openFiles[f.fd()]; !ok {
 		panic(fmt.Errorf("close of unopened fd %d", f.fd()))
 	}
@@ -123,6 +129,8 @@ func (fs *MemFs) Close(f File) {
 func (fs *MemFs) Open(dir, fname string) File {
 	fs.m.Lock()
 	defer fs.m.Unlock()
+	verifHook("open.enter", dir, fname, 0)
+	defer verifHook("open.leave", dir, fname, 0)
 	fs.checkDir(dir)
 	fname = path.Clean(fname)
 	inode, ok := fs.dirents[mkpath(dir, fname)]
@@ -135,6 +143,8 @@ func (fs *MemFs) Open(dir, fname string) File {
 func (fs *MemFs) ReadAt(f File, offset uint64, length uint64) []byte {
 	fs.m.Lock()
 	defer fs.m.Unlock()
+	verifHook("readat.enter", "", "", f.fd())
+	defer verifHook("readat.leave", "", "", f.fd())
 	inode := fs.checkMode(f, readMode)
 	data := fs.inodes[inode]
 	if offset >= uint64(len(data)) {
@@ -151,6 +161,8 @@ func (fs *MemFs) ReadAt(f File, offset uint64, length uint64) []byte {
 func (fs *MemFs) Delete(dir, fname string) {
 	fs.m.Lock()
 	defer fs.m.Unlock()
+	verifHook("delete.enter", dir, fname, 0)
+	defer verifHook("delete.leave", dir, fname, 0)
 	delete(fs.dirents, mkpath(dir, fname))
 	// NOTE: we don't actually garbage collect unreachable files
 }
@@ -158,6 +170,8 @@ func (fs *MemFs) Delete(dir, fname string) {
 func (fs *MemFs) AtomicCreate(dir, fname string, data []byte) {
 	fs.m.Lock()
 	defer fs.m.Unlock()
+	verifHook("atomiccreate.enter", dir, fname, 0)
+	defer verifHook("atomiccreate.leave", dir, fname, 0)
 	fs.checkDir(dir)
 	fd := fs.nextFd()
 	p := make([]byte, len(data))
@@ -169,6 +183,8 @@ func (fs *MemFs) AtomicCreate(dir, fname string, data []byte) {
 func (fs *MemFs) Link(oldDir, oldName, newDir, newName string) bool {
 	fs.m.Lock()
 	defer fs.m.Unlock()
+	verifHook("link.enter", newDir, newName, 0)
+	defer verifHook("link.leave", newDir, newName, 0)
 	fs.checkDir(oldDir)
 	fs.checkDir(newDir)
 	fd, ok := fs.dirents[mkpath(oldDir, oldName)]
@@ -185,6 +201,8 @@ func (fs *MemFs) Link(oldDir, oldName, newDir, newName string) bool {
 func (fs *MemFs) List(dir string) (names []string) {
 	fs.m.Lock()
 	defer fs.m.Unlock()
+	verifHook("list.enter", dir, "", 0)
+	defer verifHook("list.leave", dir, "", 0)
 	fs.checkDir(dir)
 	for n := range fs.dirents {
 		if n.dir == dir {
@@ -197,5 +215,7 @@ func (fs *MemFs) List(dir string) (names []string) {
 func (fs *MemFs) Mkdir(dir string) {
 	fs.m.Lock()
 	defer fs.m.Unlock()
+	verifHook("mkdir.enter", dir, "", 0)
+	defer verifHook("mkdir.leave", dir, "", 0)
 	fs.validDirs[dir] = true
 }
